@@ -8,3 +8,5 @@ import BB.Props.C03
 #print axioms BB.Sym.sym_step_sound
 #print axioms BB.Sym.sym_period_sound
 #print axioms BB.Sym.validate_app_sound
+#print axioms BB.tape_parse_show
+#print axioms BB.tape_show_injective
